@@ -26,7 +26,7 @@ func pipelinedAll(run *evid.Run, gs []*sessrep.Graph, perGraph, maxLen int) (n i
 			srv := drv.Start(sessrep.DrvCfg(g.Cfg))
 			defer srv.Stop()
 			rng := rand.New(rand.NewSource(run.Seed*7919 + int64(gi)))
-			for i := 0; i < perGraph; i++ {
+			for i := 0; i < perGraph && !drv.TooManyHangs(); i++ {
 				path := g.RandomPath(rng, 2+rng.Intn(maxLen))
 				if len(path) == 0 {
 					continue
